@@ -94,6 +94,24 @@ def run(case):
             finally:
                 Segment.set_precision(None)
             assert again == out[:40], "overlapping(t) changed when the time precision was changed after the timeline was built"
+        # time points that no double holds (exact rationals a hair beside a bound, integers beyond 2^53): the answer is
+        # still start <= t <= end, compared exactly
+        from fractions import Fraction
+        hair = Fraction(1, 10 ** 30)
+        for b_ in sorted({v for s_ in members for v in (s_.start, s_.end)})[:12]:
+            for tq in (Fraction(b_) + hair, Fraction(b_) - hair, Fraction(b_)):
+                want = [s_ for s_ in members if Fraction(s_.start) <= tq <= Fraction(s_.end)]
+                assert t.overlapping(tq) == want and list(t.overlapping_iter(tq)) == want, \
+                    "overlapping(%r) != the segments with start <= t <= end" % (tq,)
+        if tb.prec is None and case["segs"]:
+            from pyannote.core import Segment, Timeline
+            base = 1_700_000_000_000_000_000
+            big = Timeline([Segment(base + 1000 * a_, base + 1000 * b_) for a_, b_ in case["segs"] if b_ > a_])
+            for x in case["ts"][:20]:
+                for tq in (base + 1000 * x, base + 1000 * x + 50, base + 1000 * x - 50):
+                    want = [s_ for s_ in big if s_.start <= tq <= s_.end]
+                    assert big.overlapping(tq) == want and list(big.overlapping_iter(tq)) == want, \
+                        "overlapping(%r) != the segments with start <= t <= end (integer nanosecond times)" % (tq,)
         return {"q": out, "qq": outq}
     finally:
         tb.leave()
